@@ -126,6 +126,29 @@ the restart that enables snapshots regenerates the snapshot from the head state,
 into the disk layer cheaply (third signature above: 0x1235 written by setB in block 1, regenerated into the disk layer,
 cleared in block 2, still read back by the snapshot node).
 
+seeded-f-difftodisk-keeps-destructed-slots-in-cache       | no tests (kai/state/     | exit 1  | C06|block=killA/mk2B@legacy+factory-deployed|
+  (independently written; /verif/seeded/C06f):            |  snapshot)               | (3 of 3 |  axis=snapshot+flatten-every-block|field=app-hash
+  kai/state/snapshot/snapshot.go diffToDisk, destruct     |                          |  runs,  |
+  loop: base.cache.Del(key) instead of Del(key[1:]) =>    |                          |  same   |
+  a destructed contract's slots stay in the disk layer's  |                          |  sig)   |
+  clean cache; a CREATE2 re-creation at the same address  |                          |         |
+  on a long-running snapshot node reads the dead          |                          |         |
+  incarnation's slot                                      |                          |         |
+
+The second seeded change (C06f) was MISSED by the version with the chains above (quick exit 0). What excluded it:
+(1) diffToDisk never ran: no snapshot diff layer was ever merged into the disk layer (that needs > 128 layers plus the
+4 MB accumulator limit, a running generator, or Cap(root, 0)); (2) no template re-created a contract at the SAME
+address after a self-destruct (mkA uses CREATE: a new address each time; the genesis-allocation contract is never
+re-created). Added: chain kinds legacy+factory / galaxias+factory (thorough) with a CREATE2 factory in the genesis
+allocation; parent block 1 creates the multi-purpose contract through it (constructor: slot3 = slot1 + 0x100, i.e. it
+READS slot 1 of its address before anything is written) and calls set; chain template mk2B re-creates the contract at
+the same address; chain-variant axis flatten-every-block: after every applied block (parent blocks included) a
+long-running snapshot node merges all diff layers into the disk layer through the tree's public Cap(root, 0)
+(injected accessor VerifC06FlattenSnapshot, access only), alone and combined with a journal + reload (clean restart)
+before the last block. So the compared node kinds are {snapshots off, snapshots on long-running, snapshots on
+flattened every block (pruning and archive), flattened + restarted before the last block}. Guards: some chain must
+re-create the contract after a self-destruct, and Cap(root, 0) must have succeeded.
+
 M20 (commitBlock does not RevertToSnapshot after a failing transaction: `_ = snap` instead of
 `state.RevertToSnapshot(snap)`): tried, quick exits 0, and that is correct for THIS property. Every node —
 proposer and receivers alike — executes the block through the same commitBlock, so the un-reverted residue
